@@ -73,7 +73,7 @@ func (d *EMADynamicSampler) GetSampleRate(trace *types.Trace) (rate uint, keep b
 		d.Logger.Debug().Logf("trace key hit max length of %d, truncating", maxKeyLength)
 	}
 	count := int(trace.DescendantCount())
-	rate = uint(d.dynsampler.GetSampleRateMulti(key, count))
+	rate = uint(max(d.dynsampler.GetSampleRateMulti(key, count), 1)) // clamp before the unsigned conversion: a negative rate would wrap around
 	if rate < 1 { // protect against dynsampler being broken even though it shouldn't be
 		rate = 1
 	}
